@@ -36,3 +36,13 @@ reg("C06", "E1-product",
     "runs, each compared with the independently computed set difference. Bounded-exhaustive, not sampled.",
     "Store contents are written directly to disk (inputs). Universe limited to 3 directory objects / 4 files.",
     "DESIGN.md §4 C06")
+
+reg("C19", "E1-product",
+    "exhaustive enumeration of (ancestor, ours, theirs) triples x policies on the real _merge/merge, vs per-key three-way rule",
+    "All 3^9 (quick) / 3^12 (thorough) assignments of {absent,v1,v2} to 3/4 keys (one/two nested) for the three "
+    "sides, 8 allowed-operation policies, both argument orders, on the real _merge; plus the public merge() on "
+    "listings stored in both store classes for all triples over 2 keys (incl. no ancestor). Oracle: result == "
+    "per-key three-way rule or MergeError; any other exception, a silently resolved conflict, order dependence, "
+    "mutated inputs, non-canonical merged id, or a default-policy merge of non-add changes is a violation.",
+    "MergeError is always acceptable. Values differ only in hash. Universe: <=4 keys, 2 values.",
+    "DESIGN.md §4 C19")
